@@ -42,9 +42,8 @@ class Gen:
                              '<svg width="4"><circle r="2"></circle></svg>', '<select><option>one</option><option>two</option></select>',
                              '<input type="text" value="v">', '<textarea>t &lt; u</textarea>', '<button>go</button>',
                              '<iframe src="/frame"></iframe>', '<iframe></iframe>',
-                             '<video controls><source src="m.mp4" type="video/mp4"><p>no video <b>here</b></p></video>',
-                             '<audio src="a.ogg"><div>no audio</div></audio>', '<video src="v.webm">plain fallback</video>',
-                             '<object data="o.swf"><ul><li>fallback item</li></ul></object>'])
+                             '<video src="v.webm">plain fallback</video>', '<audio src="a.ogg"><b>no</b> audio</audio>',
+                             '<object data="o.swf">fallback <i>words</i></object>'])
         return '<ins>%s</ins>' % self.words(1, 2) if r.random() < 0.5 else '<del>%s</del>' % self.words(1, 2)
 
     def inlines(self):
@@ -75,6 +74,11 @@ class Gen:
             return self.inlines()           # text directly in the parent block / body
         if k < 0.95:
             return '<hr>'
+        if k < 0.965 and self.rich:
+            # media elements with block-level fallback content: only where flow content is allowed (inside a paragraph or heading
+            # the page would be invalid and the parser restructures it)
+            return r.choice(['<video controls><source src="m.mp4" type="video/mp4"><p>no video <b>here</b></p></video>',
+                             '<audio src="a.ogg"><div>no audio</div></audio>', '<object data="o.swf"><ul><li>fallback item</li></ul></object>'])
         return '<form><p>%s <input name="n" value="1"></p></form>' % self.words(1, 2)
 
     def body(self):
